@@ -321,8 +321,15 @@ func (s *raftLog) StoreLogs(logs []*raft.Log) error {
 
 // DeleteRange deletes logs within a given range inclusively.
 func (s *raftLog) DeleteRange(min, max uint64) error {
+	if min > max {
+		return nil
+	}
 	batch := rocksdb.NewWriteBatch()
-	batch.DeleteRangeCF(s.cfHandles[logTable], util.Uint64AsBytes(min), util.Uint64AsBytes(max+1))
+	defer batch.Destroy()
+	// the engine's range is half-open: [min, max) plus max itself, so that
+	// max+1 is never computed (it wraps to 0 for the greatest index)
+	batch.DeleteRangeCF(s.cfHandles[logTable], util.Uint64AsBytes(min), util.Uint64AsBytes(max))
+	batch.DeleteCF(s.cfHandles[logTable], util.Uint64AsBytes(max))
 	return s.db.Write(s.wo, batch)
 }
 
